@@ -15,6 +15,8 @@ XNext == /\ Next
 XSpec == XInit /\ [][XNext]_<<vars, hist>>
 Case == LET e == Expected(inp) IN
         [inp |-> inp, rej |-> e.rej, g |-> GOut(e.g), free |-> SetToSeq(e.free), hist |-> hist,
+         \* dsDNA: the molecule after the added strand has been completed once more in place
+         g2 |-> IF inp.fam = "dsdna" /\ ~e.rej /\ inp.rounds = 2 THEN GOut(ExpRounds(inp, 2)) ELSE GOut(EmptyG),
          back |-> IF inp.fam = "dsdna" /\ ~e.rej THEN GOut(SecondStrand(Complement(SecondStrand(e.g)))) ELSE GOut(EmptyG)]
 ExportInv == (pc \in {"done", "rejected"}) => PrintT(<<"CASE", ToJson(Case)>>)
 =============================================================================
